@@ -70,6 +70,20 @@ func queueScenarios() []*sched.Scenario {
 			vrt.Fail("not-delivered", "items delivered %v, both must be delivered exactly once", b.runs)
 		}
 	})
+	// scheduled times far outside the range of int64 nanoseconds since 1970 (year 3000, year 1) are ordinary times: an
+	// element that is due comes first, an element from the distant past is due at once
+	add("queue/far-future-and-far-past-elements", 1, false, func() {
+		q := timed.NewQueue[int]()
+		q.Add(1, time.Date(3000, 1, 1, 0, 0, 0, 0, time.UTC))
+		q.Add(2, at(5))
+		q.Add(3, time.Date(1, 1, 1, 0, 0, 0, 0, time.UTC))
+		first, second := q.Poll(true), q.Poll(true)
+		nowMs := int(vrt.Now() / int64(time.Millisecond))
+		vrt.Observe("polled", first, second, nowMs)
+		if first != 3 || second != 2 || nowMs > 1000 {
+			vrt.Fail("order|far-times", "elements scheduled for year 1, +5ms and year 3000 were polled as %d, %d (virtual time now %dms); expected 3 then 2 at 5ms", first, second, nowMs)
+		}
+	})
 	add("queue/cancel-vs-poll", 1, false, func() {
 		q := timed.NewQueue[int]()
 		b := newBook()
@@ -356,6 +370,33 @@ func taskExecutorScenarios() []*sched.Scenario {
 			vrt.Fail("not-delivered", "the replacing task did not run")
 		}
 	})
+	// a bounded queue that is full with the task being replaced: the replacement takes the old task's place (postponed
+	// and brought forward), it is not the one that falls off the end
+	for _, later := range []bool{true, false} {
+		later := later
+		name := "taskexecutor/bounded-queue-replace-with-earlier"
+		newAt := 3
+		if later {
+			name, newAt = "taskexecutor/bounded-queue-replace-with-later", 9
+		}
+		add(name, 1, false, func() {
+			te := timed.NewTaskExecutor[string](1, timed.WithMaxQueueSize(1))
+			started := map[int]bool{}
+			te.ExecuteAt("id", func() {
+				if logged("replaced") {
+					vrt.Fail("replaced-task-ran", "the task replaced by a second ExecuteAt for the same identifier started after that call had returned (bounded queue of size 1)")
+				}
+				started[1] = true
+				vrt.Observe("run", 1)
+			}, at(5))
+			te.ExecuteAt("id", func() { started[2] = true; vrt.Observe("run", 2, nowMs()) }, at(newAt))
+			vrt.Observe("replaced")
+			te.Shutdown()
+			if !started[2] {
+				vrt.Fail("not-delivered", "the replacing task did not run: the bounded queue (size 1) dropped it although the task it replaces made room")
+			}
+		})
+	}
 	// with one worker and with two (an idle second worker takes the re-scheduled task out of the queue while the
 	// callback that scheduled it is still running)
 	for _, workers := range []int{1, 2} {
